@@ -1,0 +1,5 @@
+//go:build !verif
+
+package nsqd
+
+func verifCrashPoint(p string) {}
